@@ -105,12 +105,12 @@ def smStep (s : Sm) (ev : String) : Option Sm :=
                  else if containsAll s.st.committed ids then some s.st.committed else none
       reg.map fun reg =>
         let r : Running := { sources := ids, epoch := s.st.epoch,
-                             merged := mergeEntries s.st.queue (findSources reg ids) target newId }
+                             merged := mergeEntriesG s.st.queue (findSources reg ids) target newId }
         { s with running := (idx, r) :: s.running }
     | _, _, _, _ => none
   | ["end", idx] =>
     match idx.toNat? with
-    | some idx => (s.running.lookup idx).map fun r => { s with st := endMerge s.st r }
+    | some idx => (s.running.lookup idx).map fun r => { s with st := endMergeG s.st r }
     | none => none
   | ["endnr", idx] =>
     match idx.toNat? with
@@ -124,6 +124,42 @@ def smRun (evs : List String) : Option Sm :=
   evs.foldlM smStep { st := { queue := [], committed := [], uncommitted := [],
                               committedOpstamp := 0, published := [], epoch := 0 },
                       running := [] }
+
+/-! ### event machine (`Sys`) next to the sequential replay (`Abs`) -/
+
+def parseEv (s : Sys) (tok : String) : Option Ev :=
+  match tok.splitOn ":" with
+  | ["a", docs] => (if docs == "-" then some [] else (docs.splitOn ",").mapM parseDocRec).map Ev.addSeg
+  | ["d", k] => k.toNat?.map Ev.delete
+  | ["c"] => some .commit
+  | ["r"] => some .rollback
+  | ["x"] => some .deleteAll
+  | ["mu"] => some (.startMerge (s.st.uncommitted.map (·.segId)))
+  | ["mc"] => some (.startMerge (s.st.committed.map (·.segId)))
+  | ["e"] => some .endMerge
+  | _ => none
+
+def traceRun (toks : List String) : Option (Sys × Abs) :=
+  toks.foldlM (fun (p : Sys × Abs) tok => (parseEv p.1 tok).map fun ev => (p.1.stepG ev, p.2.step ev))
+    (Sys.init, Abs.init)
+
+def parseEvM (s : SysM) (tok : String) : Option EvM :=
+  match tok.splitOn ":" with
+  | ["a", docs] => (if docs == "-" then some [] else (docs.splitOn ",").mapM parseDocRec).map EvM.addSeg
+  | ["d", k] => k.toNat?.map EvM.delete
+  | ["c"] => some .commit
+  | ["r"] => some .rollback
+  | ["x"] => some .deleteAll
+  | ["mu"] => some (.startMerge (s.st.uncommitted.map (·.segId)))
+  | ["mc"] => some (.startMerge (s.st.committed.map (·.segId)))
+  | ["mu1"] => some (.startMerge ((s.st.uncommitted.map (·.segId)).drop 1))
+  | ["mc1"] => some (.startMerge ((s.st.committed.map (·.segId)).drop 1))
+  | ["e", i] => i.toNat?.map EvM.endMerge
+  | _ => none
+
+def traceRunM (toks : List String) : Option (SysM × Abs) :=
+  toks.foldlM (fun (p : SysM × Abs) tok => (parseEvM p.1 tok).map fun ev => (p.1.step ev, p.2.step ev.toEv))
+    (SysM.init, Abs.init)
 
 def handle : List String → String
   | ["dump", s] =>
@@ -150,6 +186,20 @@ def handle : List String → String
     match parseAlive bits, ss.mapM parseSeg with
     | some bits, some segs => showNatList (mergedStore (fun i => bits.getD i false) 0 segs)
     | _, _ => "bad-op"
+  | "trace" :: toks =>
+    match traceRun toks with
+    | some (s, a) =>
+      "pub=" ++ showNatList (sortNat (publishedUids s.st)) ++ "/pend=" ++
+        showNatList (sortNat ((pendDocs s.st).map (·.uid))) ++ "/abs=" ++
+        showNatList (sortNat (a.pub.map (·.uid))) ++ "/abspend=" ++ showNatList (sortNat (a.pend.map (·.uid)))
+    | none => "bad-op"
+  | "tracem" :: toks =>
+    match traceRunM toks with
+    | some (s, a) =>
+      "pub=" ++ showNatList (sortNat (publishedUids s.st)) ++ "/pend=" ++
+        showNatList (sortNat ((pendDocs s.st).map (·.uid))) ++ "/abs=" ++
+        showNatList (sortNat (a.pub.map (·.uid))) ++ "/running=" ++ toString s.running.length
+    | none => "bad-op"
   | "sm" :: evs =>
     match smRun evs with
     | some s => "pub=" ++ showNatList (sortNat (publishedUids s.st)) ++ "/pend=" ++
